@@ -312,6 +312,7 @@ class TypeMap:
         self.set_insts = {}  # tag -> k
         self.ilist_insts = {}  # tag -> (elem ctype, hook member name)   boost::intrusive::list
         self.used_structs = []  # ordered list of struct tags referenced
+        self.carr_insts = {}  # typedef name -> (elem ctype, N) for pointer-to-array types
 
     def learn(self, sugar, desugared):
         if not sugar or not desugared or sugar == desugared:
@@ -385,6 +386,12 @@ class TypeMap:
         if k == "ptr":
             if t.to.kind == "func":
                 return "vf_fnptr"
+            if t.to.kind == "array" and t.to.n is not None and str(t.to.n).isdigit():
+                # pointer to array of N T (parameter `T a[][N]`): typedef T vf_carr_T_N[N]; the pointee decays as in C++
+                e = self.c(t.to.to)
+                name = "vf_carr_%s_%s" % (self.tag(e), t.to.n)
+                self.carr_insts[name] = (e, str(t.to.n))
+                return name + "*"
             return self.c(t.to) + "*"
         if k == "array":
             raise Unsupported("array type in this position: %r" % t)
@@ -395,6 +402,8 @@ class TypeMap:
         name = t.name
         if name in ("bool", "_Bool"):
             return "_Bool"
+        if name in ("std::_Bit_reference", "_Bit_reference", "std::vector<bool>::reference"):
+            return "_Bool"  # proxy reference to an element of vector<bool>: the element lvalue of the seq model
         words = name.split(" ")
         if all(w in BUILTIN_WORDS for w in words):
             if name == "auto":
